@@ -1154,8 +1154,22 @@ class _NP:
             return from_nested(list(x))
         return Arr((1,), lambda idx: x, dtype="int" if (isinstance(x, int) or (isinstance(x, Num) and x.is_int)) else "float")
 
-    def arange(self, n):
-        return Arr((n,), lambda idx: idx[0], dtype="int")
+    def arange(self, *a, dtype=None):
+        """arange(n) / arange(start, stop) / arange(start, stop, step) over integers (step a positive concrete integer)"""
+        if len(a) == 1:
+            n = a[0]
+            if A.dtype_kind(dtype) == "float":
+                return Arr((n,), lambda idx: as_float(idx[0]), dtype="float")
+            return Arr((n,), lambda idx: idx[0], dtype="int")
+        if any(not (isinstance(v, int) or (isinstance(v, Num) and v.is_int)) for v in a):
+            raise Unsupported("np.arange with non-integer arguments")
+        start, stop = a[0], a[1]
+        step = a[2] if len(a) > 2 else 1
+        if not (isinstance(step, int) and step > 0):
+            raise Unsupported("np.arange with a symbolic or non-positive step")
+        span = stop - start
+        n = ite(lift(span) > 0, (span + (step - 1)) // step, 0) if not (isinstance(span, int)) else max(0, (span + step - 1) // step)
+        return Arr((n,), lambda idx: start + idx[0] * step, dtype="int")
 
     def linspace(self, start, stop, num=50, endpoint=True, retstep=False, dtype=None):
         """D14: num evenly spaced samples; element i = start + i*step, step = (stop-start)/(num-1) (endpoint) or /num"""
@@ -1379,6 +1393,96 @@ class _NP:
 
     def logical_and(self, a, b):
         return elementwise(lambda x, y: b_and(x, y), a, b, dtype="bool")
+
+    def logical_or(self, a, b):
+        return elementwise(lambda x, y: b_or(x, y), a, b, dtype="bool")
+
+    def logical_not(self, a):
+        return elementwise(lambda x: b_not(x), a, dtype="bool") if isinstance(a, Arr) else b_not(a)
+
+    # -- plain elementwise aliases of the operators (same semantics as the operator forms)
+    def add(self, a, b):
+        return a + b
+
+    def subtract(self, a, b):
+        return a - b
+
+    def negative(self, a):
+        return -a
+
+    def power(self, a, b):
+        return a ** b
+
+    def sign(self, x):
+        """-1 / 0 / +1 with the element type of the argument"""
+        def f(v):
+            fl = not (isinstance(v, int) or (isinstance(v, Num) and v.is_int))
+            one, zero = (1.0, 0.0) if fl else (1, 0)
+            return ite(lift(v) > 0, one, ite(lift(v) < 0, -one, zero))
+        return elementwise(f, x, dtype=x.kind) if isinstance(x, Arr) else f(x)
+
+    def clip(self, x, lo, hi):
+        """np.clip(x, lo, hi) == minimum(maximum(x, lo), hi)  (None = no bound)"""
+        r = x
+        if lo is not None:
+            r = self.maximum(r, lo)
+        if hi is not None:
+            r = self.minimum(r, hi)
+        return r
+
+    def isnan(self, x):
+        """floats are reals or tagged infinities here: an operation whose IEEE result would be NaN carries its own definedness obligation
+        where it is evaluated, so no value that reaches this point is NaN"""
+        return elementwise(lambda v: False, x, dtype="bool") if isinstance(x, Arr) else False
+
+    def hypot(self, a, b):
+        return self.sqrt(a * a + b * b)
+
+    def full(self, shape, fill_value, dtype=None):
+        kind = A.dtype_kind(dtype) or ("int" if isinstance(fill_value, int) or (isinstance(fill_value, Num) and fill_value.is_int) else "float")
+        return full(self._shape(shape), fill_value, dtype=kind)
+
+    def ones_like(self, a):
+        return full(a.shape, 1.0 if a.kind == "float" else 1, dtype=a.kind)
+
+    def identity(self, n, dtype=None):
+        return self.eye(n, dtype=dtype)
+
+    def transpose(self, a):
+        return a.T
+
+    def ravel(self, a):
+        return a.ravel()
+
+    def ndim(self, a):
+        return a.ndim if isinstance(a, Arr) else 0
+
+    def shape(self, a):
+        return tuple(a.shape) if isinstance(a, Arr) else ()
+
+    def size(self, a):
+        return a.size if isinstance(a, Arr) else 1
+
+    def mean(self, x, axis=None):
+        if axis is not None or not isinstance(x, Arr):
+            raise Unsupported("np.mean with axis / of a non-array")
+        return V.num_div(as_float(self.sum(x)), x.size)
+
+    def diagonal(self, a):
+        """main diagonal of a square 2-d array (NumPy returns a read-only view: modelled as a fresh array)"""
+        if not (isinstance(a, Arr) and a.ndim == 2):
+            raise Unsupported("np.diagonal of a non 2-d array")
+        f = a.snapshot_fn()
+        return Arr((A.imin(a.shape[0], a.shape[1]),), lambda idx: f((idx[0], idx[0])), dtype=a.kind)
+
+    def diag(self, a):
+        if isinstance(a, Arr) and a.ndim == 2:
+            return self.diagonal(a)
+        if isinstance(a, Arr) and a.ndim == 1:
+            f = a.snapshot_fn()
+            zero = 0.0 if a.kind == "float" else 0
+            return Arr((a.shape[0], a.shape[0]), lambda idx: ite(V.num_eq(idx[0], idx[1]), f((idx[0],)), zero), dtype=a.kind)
+        raise Unsupported("np.diag of %r" % (type(a).__name__,))
 
     def outer(self, a, b):
         fa, fb = a.snapshot_fn(), b.snapshot_fn()
